@@ -664,8 +664,19 @@ func C12(r *vf.Run) {
 						}
 					}
 				}
-				for j := 0; j < 1+g.Intn(3); j++ {
-					reg(addrAt(g.Intn(sled)))
+				ncb := 1 + g.Intn(3)
+				if g.Intn(5) == 0 {
+					ncb = 40 + g.Intn(60) // more callbacks than a small bit-mask or fixed table could index
+				}
+				for j := 0; j < ncb; j++ {
+					if j < sled {
+						reg(addrAt(g.Intn(sled)))
+					} else {
+						reg(g.U32() & 0xFFFFFF) // never fetched
+					}
+				}
+				if ncb >= 40 {
+					w.cells["reuse:many-callbacks"]++
 				}
 				if g.Intn(3) == 0 {
 					a := addrAt(g.Intn(sled))
@@ -745,7 +756,7 @@ func C12(r *vf.Run) {
 		})
 	}
 	if r.OnlyPhase == "" {
-		for _, c := range []string{"reuse:moved-same-count", "reuse:map-replaced", "reuse:grown", "reuse:shrunk"} {
+		for _, c := range []string{"reuse:moved-same-count", "reuse:map-replaced", "reuse:grown", "reuse:shrunk", "reuse:many-callbacks"} {
 			r.Require(c)
 		}
 		for op := 0; op < 256; op++ {
